@@ -211,7 +211,7 @@ fn entry_points<'a>(conv: &'a Beatmap, dattrs: &DifficultyAttributes, pattrs: &P
 
 fn main() {
     let ctx = Ctx::from_env("C04");
-    ctx.rule("case = (mode configuration, grammar map); per case: every Difficulty of the menu (5-10 settings x passed_objects in {unset,0,1,[N,]N+2}) x every score specification of the menu x every entry point (generic Performance::new/from with &map, map, DifficultyAttributes, PerformanceAttributes, mode attributes; attrs.performance(); mode-specific builders new/from/try_new) with the same Difficulty supplied again; for converts additionally the calculator of the *source* map (Performance and OsuPerformance, borrowing and owning the map), fully configured and only then switched with try_mode / mode_or_ignore; oracle = identical PerformanceAttributes, embedded difficulty attributes == one-shot difficulty; results of attribute-based runs are fed back in a second generation; non-trivial = reference pp > 0");
+    ctx.rule("case = (mode configuration, grammar map); per case: every Difficulty of the menu (5-10 settings x passed_objects in {unset,0,1,[N,]N+2}) x every score specification of the menu x every entry point (generic Performance::new/from with &map, map, DifficultyAttributes, PerformanceAttributes, mode attributes; attrs.performance(); mode-specific builders new/from/try_new) with the same Difficulty supplied again; for converts additionally the calculator of the *source* map (Performance and OsuPerformance, borrowing and owning the map), fully configured and only then switched with try_mode / mode_or_ignore; oracle = identical PerformanceAttributes, embedded difficulty attributes == one-shot difficulty (on the converted map and straight on the source map); results of attribute-based runs are fed back in a second generation; non-trivial = reference pp > 0");
     ctx.assume("the converted map (Beatmap::convert) is 'the map' for converts; conversion consistency itself is C07's business");
 
     // quick: N <= 3, far positions. thorough: N <= 3 with stacked and far positions plus N <= 4 with far positions, the rich
@@ -249,6 +249,14 @@ fn main() {
                 };
                 let conv = map.clone().convert(gen::game_mode(u.cfg.dst), &mods).expect("convertible");
                 let dattrs = d.calculate(&conv);
+                // "one-shot difficulty" has two routes for a convert: on the converted map, and straight on the source map
+                if let Ok(direct) = vh::api::difficulty(&d, &map, u.cfg.dst) {
+                    l.checked(1);
+                    if !same(&direct, &dattrs) {
+                        l.violation("one_shot_routes", || format!("cfg={:?}\nspec={}\ndifficulty={dname}\none-shot difficulty straight on the source map differs from one-shot difficulty on the converted map\n source map   : {direct:?}\n converted map: {dattrs:?}\n--- .osu ---\n{}", u.cfg, spec.describe(), spec.text()));
+                        return;
+                    }
+                }
                 for sc in scores(n, rich) {
                     let reference = sc.apply(Performance::new(&conv).difficulty(d.clone())).calculate();
                     if reference.pp() > 0.0 {
